@@ -55,6 +55,32 @@ def tok_classifier(pkey, nontrivial_rule):
     return classify
 
 
+def tok16_classify(line, impl, mobs, extra):
+    """`tok16` cases (C02): a boundary with about 65536 nodes.  The faithful model (u16 back pointers, Model/LatticeW.lean)
+    must agree with the code; the property predicate is evaluated on the implementation's tokens."""
+    flags = pflags(extra)
+    info = {"tags": ["u16-boundary", "rows=" + flags.get("ROWS", "?"), "idx16=" + flags.get("IDX16", "?")], "nontrivial": True}
+    if flags.get("C02") == "0":
+        if flags.get("IDX16") == "0" and impl == mobs:
+            info["prop_fail"] = "min-idx-u16-wrap"
+            info["why"] = ("more than 65536 nodes end at one boundary: the back pointer `min_idx = i as u16` wraps, the reported tokens are "
+                           "not the minimum-cost path and their total_cost is not their accumulated cost (exactly what the u16 model predicts)")
+        else:
+            info["prop_fail"] = "C02-predicate"
+            info["why"] = "property predicate C02 is false on the implementation's output (boundary with about 65536 nodes)"
+    elif "panic" in impl.split() and "panic" not in mobs.split():
+        info["prop_fail"] = "panic"
+        info["why"] = "the implementation panicked where the model returns a value"
+    return info
+
+
+def c02_streams(tier, seed):
+    q = tier == "quick"
+    return [(["tok", "c01", str(seed), "600" if q else "20000"], tok_classifier("C02", lattice_paths_ge2)),
+            # boundaries with 65536 / 65537 nodes: the u16 back pointer (finding F15); 18 s of model time per case
+            (["tok", "u16", str(seed), "2" if q else "5"], tok16_classify)]
+
+
 def tok2_classifier(pkey, nontrivial_rule, dict_panic_is_failure=True, astral_clause=False):
     """classifier for the second predicate group (C03 C06 C08 C12 C13) of `tok` cases"""
     def classify(line, impl, mobs, extra):
@@ -1036,7 +1062,7 @@ PROPS = {
         "assumptions": ["the tokenizer is immutable while workers exist (checked at compile time: Tokenizer/Dictionary are Send+Sync; source audit for interior mutability)"],
     },
     "C02": {
-        "modules": ["Vibrato.Props.C02", "Vibrato.Props.C02cap", "Vibrato.Props.C02spec"],
+        "modules": ["Vibrato.Props.C02", "Vibrato.Props.C02cap", "Vibrato.Props.C02spec", "Vibrato.Props.C02u16"],
         "theorems": ["Vibrato.viterbi_optimal", "Vibrato.total_cost_prefix",
                      "Vibrato.reported_is_candidate_segmentation", "Vibrato.optimal_among_live_segmentations",
                      "Vibrato.final_boundary_unique", "Vibrato.optimal_among_candidate_segmentations",
@@ -1045,8 +1071,12 @@ PROPS = {
                      "Vibrato.tokenize_min_cost_live", "Vibrato.dead_end_cheaper",
                      # the oracle of the C02S predicate (forward DP over ALL candidate segmentations) is itself proved
                      "Vibrato.specMin_lower_bound", "Vibrato.specMin_attained", "Vibrato.specMin_spec",
-                     "Vibrato.specMin_eq_lattice", "Vibrato.specMin_ne_lattice_deadEnv"],
-        "streams": tok_streams("c01", 600, 20000, tok_classifier("C02", lattice_paths_ge2)),
+                     "Vibrato.specMin_eq_lattice", "Vibrato.specMin_ne_lattice_deadEnv",
+                     # the model compared with the code stores back pointers as u16 (Model/LatticeW.lean, Model/Worker16.lean)
+                     "Vibrato.buildLatticeW_eq", "Vibrato.buildLatticeW_costs", "Vibrato.idxExact_eq", "Vibrato.stepW_eq_step",
+                     "Vibrato.viterbi_optimal16", "Vibrato.total_cost_prefix16", "Vibrato.idxExact_of_cands",
+                     "Vibrato.wrap_reported", "Vibrato.wrap_not_minimal"],
+        "streams": c02_streams,
         "rule": "random dictionaries (matrix connector) x sentences x options; non-trivial = the lattice dump "
                 "has a boundary with >= 2 nodes (a real choice); distinct = sha1 of the case input",
         "trusted_base": LATTICE_TB,
